@@ -6,15 +6,20 @@ RULE = ("histories of register/unregister/dispose/lookup/write (6-40 calls, 1-3 
         "writers of keyed (i32 key) and keyless types with max_instances in {inf,1,2,3}, created enabled or not (factory / participant / "
         "publisher autoenable off), with enable and delete in between; plus general entity-tree histories with instance calls; "
         "non-trivial = at least 3 entities created and at least one instance call or delete")
-ASSUMPTIONS = ["KEEP_ALL history and unlimited max_samples / max_samples_per_instance, no matched reader: a write is never refused or blocked for history reasons",
+ASSUMPTIONS = ["the tree under check contains fixes/D33.patch and fixes/D33b.patch; the behaviour before is kept as wopOld (Model/TreeOld.lean), the C28_*_counterexample theorems and the `#inst old` switch of the Lean driver",
+               "KEEP_ALL history and unlimited max_samples / max_samples_per_instance, no matched reader: a write is never refused or blocked for history reasons",
                "instance handle of the test types = big-endian i32 key zero-padded to 16 bytes (checked byte-wise by the harness, printed as h(<key>)); keyless = all-zero handle"]
 PROFILE = Profile(loops=0, nops=(10, 35), inst_heavy=True, cft=0,
                   weights={"inst": 40, "writer": 14, "enable": 8, "delete": 8, "reader": 2, "subscriber": 2})
 CORPUS = [
-    # exemplar D33 (a): unregister never forgets the instance
+    # regression D33 (fixed): unregister forgets the instance (lookup None, BadParameter, the max_instances slot is free)
     ["participant P", "publisher pb P", "topic t P K ki", "writer w pb t max_instances=1 history=keep_all",
-     "register w 1", "unregister w 1", "lookup w 1", "unregister w 1", "dispose w 1", "register w 2"],
-    # exemplar D33 (b): lookup_instance has no keyless check
+     "register w 1", "unregister w 1", "lookup w 1", "unregister w 1", "dispose w 1", "register w 2", "lookup w 2", "register w 1",
+     "unregister w 2", "write w 1 00", "lookup w 1", "write w 2 00"],
+    ["participant P", "publisher pb P", "topic t P K ki", "writer w pb t max_instances=2 history=keep_last:1",
+     "write w 1 11", "write w 1 42", "unregister w 1", "lookup w 1", "write w 1 00", "lookup w 1", "write w 2 00", "write w 3 00",
+     "unregister w 2", "write w 3 00", "dispose w 3", "dispose w 2"],
+    # regression D33b (fixed): lookup_instance refuses keyless types
     ["participant P", "publisher pb P", "topic t P N ni", "writer w pb t history=keep_all", "lookup w 5", "write w 5 00", "lookup w 7",
      "register w 1", "dispose w 1", "unregister w 1"],
     ["factory-qos autoenable=0", "participant P", "publisher pb P", "topic t P K kb", "writer w pb t history=keep_all",
@@ -31,7 +36,7 @@ def nontrivial28(case, out):
 
 def run(ctx):
     r = ctx.rng
-    n = 120 if ctx.tier == "quick" else 10000
+    n = 120 if ctx.tier == "quick" else 3000
     cases = [Case(list(c)) for c in CORPUS]
     for k in range(n):
         cases.append(inst_case(r) if k % 3 else gen_case(r, PROFILE))
@@ -46,13 +51,15 @@ def run(ctx):
 
 TECHNIQUE = "Lean 4 theorems per clause over arbitrary writer states + refinement to the documented contract + differential correspondence through the deterministic simulator"
 LEVEL_TEXT = ("Kernel-checked Lean theorems about ONE call on an ARBITRARY writer state (hence every call of every history): C28_not_enabled "
-              "(every operation -> NotEnabled), C28_keyless_illegal (register/unregister/dispose -> IllegalOperation), "
-              "C28_register_returns_key_handle, C28_register_idempotent, C28_lookup_iff_known, C28_unknown_instance_bad_parameter, "
-              "C28_write_registers; C28_contract_partial: every history without unregister_instance on a keyed writer gets exactly the answers of "
-              "the documented contract. As-is counter-examples (finding D33): C28_unregister_counterexample (the instance stays known after "
-              "unregister: lookup answers, a second unregister and a dispose succeed, its max_instances slot stays taken) and "
-              "C28_lookup_keyless_counterexample (lookup_instance on a keyless type is not refused). Model and DataWriterAsync agree on every "
-              "return code and handle of random histories on keyed and keyless types before and after enable.")
+              "(every operation -> NotEnabled), C28_keyless_illegal (register/unregister/dispose/lookup -> IllegalOperation), "
+              "C28_register_returns_key_handle, C28_register_idempotent, C28_lookup_iff_registered, C28_unknown_instance_bad_parameter, "
+              "C28_unregister_forgets (after unregister: lookup None, second unregister / dispose BadParameter, max_instances slot free), "
+              "C28_write_registers; over ALL histories: C28_contract (every history on any writer gets exactly the answers of the documented "
+              "contract specWop, no exclusion) and C28_lookup_tracks_history (an instance is registered exactly when the last "
+              "register/write/unregister of its key was a register or write). The pre-patch behaviour (D33: the instance stayed known after "
+              "unregister; D33b: keyless lookup not refused) is kept as regression witnesses on wopOld (C28_unregister_counterexample, "
+              "C28_lookup_keyless_counterexample). Model and DataWriterAsync agree on every return code and handle of random histories on "
+              "keyed and keyless types before and after enable.")
 LEVEL_NOTE = ("Trusted: Lean kernel; the hand-written model `wop` of data_writer_entity.rs:70-312 and writer_methods.rs:249-295; the dsim harness "
               "(it checks the 16 handle bytes against the expected key hash before printing h(<key>)) and the Python shadow oracle.")
 DESIGN_REF = "DESIGN.md section 5 C28"
